@@ -1,6 +1,6 @@
 use crate::{
     draw_target::DrawTarget,
-    geometry::{Dimensions, OriginDimensions},
+    geometry::{Dimensions, OriginDimensions, Point, Size},
     image::ImageDrawable,
     primitives::Rectangle,
     transform::Transform,
@@ -28,7 +28,12 @@ where
     T: ImageDrawable,
 {
     pub(super) fn new(parent: &'a T, area: &Rectangle) -> Self {
-        let area = parent.bounding_box().intersection(area);
+        let parent_area = parent.bounding_box();
+
+        // The bottom right corner of an area that extends far beyond the parent might not be
+        // representable as a `Point`. Such areas are cropped before the intersection is
+        // calculated to prevent overflows.
+        let area = parent_area.intersection(&crop_area(area, parent_area.size));
 
         Self { parent, area }
     }
@@ -38,8 +43,36 @@ where
     }
 }
 
+/// Crops an area to the bounding box of the parent expanded by one pixel in each direction.
+///
+/// The one pixel wide border around the parent ensures that the intersection between the cropped
+/// area and the bounding box of the parent is equal to the intersection with the original area.
+/// Zero sized areas are returned unchanged.
+fn crop_area(area: &Rectangle, parent_size: Size) -> Rectangle {
+    if area.is_zero_sized() {
+        return *area;
+    }
+
+    let (x, width) = crop_range(area.top_left.x, area.size.width, parent_size.width);
+    let (y, height) = crop_range(area.top_left.y, area.size.height, parent_size.height);
+
+    Rectangle::new(Point::new(x, y), Size::new(width, height))
+}
+
+/// Crops the range `start..start + length` to `-1..=parent_length`.
+///
+/// Returns the start and length of the cropped range.
+fn crop_range(start: i32, length: u32, parent_length: u32) -> (i32, u32) {
+    // `i64` is used because the end of the range might not fit into an `i32`.
+    let end = (i64::from(start) + i64::from(length)).min(i64::from(parent_length) + 1);
+    let start = start.max(-1);
+
+    // The cropped length is never larger than `length`.
+    (start, (end - i64::from(start)).max(0) as u32)
+}
+
 impl<T> OriginDimensions for SubImage<'_, T> {
-    fn size(&self) -> crate::prelude::Size {
+    fn size(&self) -> Size {
         self.area.size
     }
 }
